@@ -5,6 +5,7 @@ import (
 	"crypto/cipher"
 	"fmt"
 
+	"github.com/tjfoc/gmsm/gmtls"
 	"github.com/tjfoc/gmsm/sm4"
 
 	"verif/mon"
@@ -199,6 +200,36 @@ func runC12(c *Ctx) {
 		}
 		check(tc{cls: fmt.Sprintf("auth-sweep/ivlen=%d", ivl), key: r.Bytes(16), iv: r.Bytes(ivl), a: r.Bytes(1 + r.Intn(24)), p: r.Bytes(1 + r.Intn(40)), sweepBits: true})
 	})
+	// (6b) the TLS stack's SM4-GCM record protection as reached through its suite table (both GM GCM suite ids): the
+	// protected record must be what standard GCM over the reference SM4 gives for nonce = implicit IV || sequence number
+	// and additional data = sequence number || type || version || length
+	for _, suite := range []uint16{gmtls.GMTLS_ECC_SM4_GCM_SM3, gmtls.GMTLS_ECDHE_SM4_GCM_SM3} {
+		for i := 0; i < c.Q(20, 400); i++ {
+			r := c.Rng(fmt.Sprintf("suite%04x/%d", suite, i))
+			key, iv := r.Bytes(16), r.Bytes(4)
+			pl := r.Bytes(r.Pick(0, 1, 15, 16, 17, 100, 1000))
+			w := map[string]interface{}{"suite": fmt.Sprintf("%04x", suite), "key": mon.Hex(key), "implicit_iv": mon.Hex(iv), "payload": mon.Hex(pl)}
+			hc, err := gmtls.VerifNewHalfConn(suite, key, iv, nil, false)
+			if err != nil {
+				rep.Violation("C12/gmtls-suite-table/no-such-suite", err.Error(), w)
+				break
+			}
+			rs := &ref.HalfState{Suite: suite, Key: key, IV: iv, On: true}
+			for seq := 0; seq < 3; seq++ {
+				var got []byte
+				if pi := mon.Guard(func() { got = hc.Encrypt(23, pl, nil) }); pi != nil {
+					rep.Violation("C12/gmtls-suite-table/panic/"+pi.Func, pi.Value, w)
+					break
+				}
+				want := rs.Seal(23, pl, nil, 0)
+				if !bytes.Equal(got, want) {
+					rep.Violation(fmt.Sprintf("C12/gmtls-suite-table/record-is-not-SM4-GCM/%04x", suite), fmt.Sprintf("record %d: got %s want %s", seq, mon.Hex(got), mon.Hex(want)), w)
+					break
+				}
+			}
+			rep.Eval(fmt.Sprintf("gmtls-suite-table/%04x/len=%s", suite, gcmLenCls(len(pl))))
+		}
+	}
 	// (7) buffer-reuse histories (serial): the same key / IV / A / P buffers are passed to consecutive calls while their
 	// contents are edited in place or refilled in between; every call must answer for the current contents
 	{
